@@ -1,5 +1,5 @@
 import BreezyVerif.Model.C21
-import BreezyVerif.Lemmas.C21E
+import BreezyVerif.Lemmas.C21F
 /-!
 C21 — theorems.  Every well-formed revision graph (any size, merges, several
 roots, ghosts), every pair of tips (`null:` included), every stop revision,
@@ -340,6 +340,247 @@ theorem run_never_drops (g : Graph) (hwf : wf g = true) (ops : List Op) :
 example : (run exG [exSrc, exTgt, { tip := some 3, revno := 2 }]
     [.pull 0 1 none none false, .push 2 1 none none false, .pull 0 2 (some 1) none true]).map (·.tip)
     = [some 4, some 4, some 4] := rfl
+
+/-! ### append-only targets: the positive half, and operation sequences -/
+
+/-- The requested revision has the target's tip **on its left-hand history**
+(or the target has no tip yet): the update is accepted and the tip moves to it
+with the right revno — whatever the append-only setting of the target.  This is
+the positive counterpart of `append_only` (and `update_descends` for
+append-only targets). -/
+theorem update_descends_append_only (g : Graph) (hwf : wf g = true) (src tgt : Br) (stop : Option Tip)
+    (s : Tip) (rn : Option Nat) (hreq : requested src stop = some (s, rn))
+    (hp : tipPresent g s = true) (hne : s ≠ tgt.tip)
+    (hchain : tgt.tip = none ∨ ∃ o r l, tgt.tip = some o ∧ s = some r ∧ lefthand g r = some l ∧ o ∈ l)
+    (hs : revnoOK g src = true) (ht : revnoOK g tgt = true)
+    (n : Nat) (hn : revnoOf g s = some n) :
+    updateRevisions g src tgt stop false = .ok { tgt with tip := s, revno := n } := by
+  have h1 : isAnc g tgt.tip s = true := by
+    rcases hchain with h0 | ⟨o, r, l, ho, hr, hl, hol⟩
+    · rw [h0]; rfl
+    · rw [ho, hr, isAnc_some]; exact lefthand_sub_anc g r l hl o hol
+  have h2 : isAnc g s tgt.tip = false := by
+    cases hh : isAnc g s tgt.tip
+    · rfl
+    · exact absurd (isAnc_antisymm' g hwf _ _ hh h1) hne
+  rw [update_eq_spec g hwf, hreq]
+  simp only [updateSpec, hp, h1, h2, Bool.not_true, Bool.not_false, Bool.false_eq_true, if_false,
+    Bool.and_false]
+  cases stop with
+  | none =>
+    obtain ⟨h3, h4⟩ := requested_none src s rn hreq
+    subst h4
+    rw [revnoOK_iff, ← h3, hn] at hs
+    simp only [Option.some.injEq] at hs
+    simp only
+    rw [setLast_accepts g tgt _ _ (fun _ => hchain), hs]
+  | some s' =>
+    obtain ⟨_, h4⟩ := requested_some src s' s rn hreq
+    subst h4
+    simp only
+    rw [distTip_complete g hwf src tgt hs ht s n hn]
+    exact setLast_accepts g tgt _ _ (fun _ => hchain)
+
+/-- the same with overwrite: an append-only target accepts an overwrite exactly
+along its left-hand history -/
+theorem overwrite_sets_append_only (g : Graph) (hwf : wf g = true) (src tgt : Br) (stop : Option Tip)
+    (s : Tip) (rn : Option Nat) (hreq : requested src stop = some (s, rn))
+    (hp : tipPresent g s = true)
+    (hchain : tgt.tip = none ∨ ∃ o r l, tgt.tip = some o ∧ s = some r ∧ lefthand g r = some l ∧ o ∈ l)
+    (hs : revnoOK g src = true) (ht : revnoOK g tgt = true)
+    (n : Nat) (hn : revnoOf g s = some n) :
+    updateRevisions g src tgt stop true = .ok { tgt with tip := s, revno := n } := by
+  rw [update_eq_spec g hwf, hreq]
+  simp only [updateSpec, hp, Bool.not_true, Bool.false_eq_true, if_false, Bool.false_and]
+  cases stop with
+  | none =>
+    obtain ⟨h3, h4⟩ := requested_none src s rn hreq
+    subst h4
+    rw [revnoOK_iff, ← h3, hn] at hs
+    simp only [Option.some.injEq] at hs
+    simp only
+    rw [setLast_accepts g tgt _ _ (fun _ => hchain), hs]
+  | some s' =>
+    obtain ⟨_, h4⟩ := requested_some src s' s rn hreq
+    subst h4
+    simp only
+    rw [distTip_complete g hwf src tgt hs ht s n hn]
+    exact setLast_accepts g tgt _ _ (fun _ => hchain)
+
+-- non-vacuity: an append-only target at 2 accepts 4 (left-hand history 4, 2, 1)
+example : lefthand exG 4 = some [4, 2, 1] := rfl
+example : updateRevisions exG exSrc { tip := some 2, revno := 2, appendOnly := true } (some (some 4)) false
+    = .ok { tip := some 4, revno := 3, appendOnly := true } := rfl
+
+/-- **Append-only along operation sequences.**  After ANY finite sequence of
+pulls and pushes (any stop revisions, with or without overwrite, the branch as
+target or as master of a bound target, failing operations included) a branch
+that was append-only is still append-only, and its tip is the original tip, or
+there was no tip, or the original tip lies on the left-hand chain of the final
+tip.  Since this holds from every state it holds between any two points of a
+run: no operation ever moves the tip of an append-only branch to a revision
+whose left-hand history lacks the previous tip. -/
+theorem run_append_only (g : Graph) (hwf : wf g = true) (ops : List Op) (s : List Br) (i : Nat) (b : Br)
+    (hb : s[i]? = some b) (hao : b.appendOnly = true) :
+    ∃ b', (run g s ops)[i]? = some b' ∧ b'.appendOnly = true ∧
+      (b'.tip = b.tip ∨ b.tip = none ∨ ∃ o r, b.tip = some o ∧ b'.tip = some r ∧ o ∈ lhChain g r) := by
+  obtain ⟨b', hb', h1, h2⟩ := run_aoStep g hwf ops s i b hb
+  exact ⟨b', hb', h1.trans hao, h2 hao⟩
+
+/-- the single-operation form, for the target and the master of a bound target -/
+theorem op_append_only (g : Graph) (isPull : Bool) (src tgt : Br) (m : Option Br) (stop : Option Tip) (ow : Bool) :
+    AoStep g tgt (applyOp g isPull src tgt m stop ow).tgt ∧
+      ∀ mb, m = some mb → ∃ mb', (applyOp g isPull src tgt m stop ow).master = some mb' ∧ AoStep g mb mb' :=
+  applyOp_aoStep g isPull src tgt m stop ow
+
+-- an append-only master (index 1) keeps its tip on the left-hand chain through a run that overwrites
+example : (run exG [exSrc, { tip := some 2, revno := 2, appendOnly := true }, { tip := some 3, revno := 2 }]
+    [.pull 2 1 none none true, .push 0 2 (some 1) none true, .pull 2 1 none (some (some 1)) true]).map (·.tip)
+    = [some 4, some 4, some 4] := rfl
+
+/-! ### bound targets: the classification for the pair (master, target) -/
+
+/-- without overwrite and with the requested revision present, a bound pull and
+a bound push are `_update_revisions` on the master and then on the target -/
+theorem bound_eq_update (g : Graph) (hwf : wf g = true) (isPull : Bool) (src tgt m : Br) (stop : Option Tip)
+    (s : Tip) (rn : Option Nat) (hreq : requested src stop = some (s, rn)) (hp : tipPresent g s = true) :
+    applyOp g isPull src tgt (some m) stop false =
+      bound2 (fun b => updateRevisions g src b stop false) tgt (some m) := by
+  cases isPull
+  · have : (fun b => basicPush g src b stop false) = (fun b => updateRevisions g src b stop false) :=
+      funext (fun b => basicPush_eq_update g hwf src b stop s rn hreq hp)
+    simp only [applyOp, pushOp, Bool.false_eq_true, if_false, this]
+  · rfl
+
+/-- The requested revision and the **master's** tip have diverged: the whole
+operation is refused with `DivergedBranches`; neither the master nor the target
+changes (the target is not even looked at). -/
+theorem bound_master_diverged (g : Graph) (hwf : wf g = true) (isPull : Bool) (src tgt m : Br)
+    (stop : Option Tip) (s : Tip) (rn : Option Nat) (hreq : requested src stop = some (s, rn))
+    (hp : tipPresent g s = true) (h1 : isAnc g s m.tip = false) (h2 : isAnc g m.tip s = false) :
+    applyOp g isPull src tgt (some m) stop false = ⟨some .diverged, tgt, some m⟩ := by
+  rw [bound_eq_update g hwf isPull src tgt m stop s rn hreq hp]
+  simp [bound2, update_diverged g hwf src m stop s rn hreq hp h1 h2]
+
+/-- Master and target both contain the requested revision: nothing changes, no error. -/
+theorem bound_both_contained (g : Graph) (hwf : wf g = true) (isPull : Bool) (src tgt m : Br)
+    (stop : Option Tip) (s : Tip) (rn : Option Nat) (hreq : requested src stop = some (s, rn))
+    (hp : tipPresent g s = true) (hm : isAnc g s m.tip = true) (ht : isAnc g s tgt.tip = true) :
+    applyOp g isPull src tgt (some m) stop false = ⟨none, tgt, some m⟩ := by
+  rw [bound_eq_update g hwf isPull src tgt m stop s rn hreq hp]
+  simp [bound2, update_contained g hwf src m stop s rn hreq hp hm,
+    update_contained g hwf src tgt stop s rn hreq hp ht]
+
+/-- The requested revision descends from the master's tip and from the
+target's tip: both move to it, both with the right revno (master first). -/
+theorem bound_both_descend (g : Graph) (hwf : wf g = true) (isPull : Bool) (src tgt m : Br)
+    (stop : Option Tip) (s : Tip) (rn : Option Nat) (hreq : requested src stop = some (s, rn))
+    (hp : tipPresent g s = true)
+    (hm1 : isAnc g m.tip s = true) (hmne : s ≠ m.tip) (hmao : m.appendOnly = false) (hmr : revnoOK g m = true)
+    (ht1 : isAnc g tgt.tip s = true) (htne : s ≠ tgt.tip) (htao : tgt.appendOnly = false)
+    (htr : revnoOK g tgt = true) (hs : revnoOK g src = true) (n : Nat) (hn : revnoOf g s = some n) :
+    applyOp g isPull src tgt (some m) stop false =
+      ⟨none, { tgt with tip := s, revno := n }, some { m with tip := s, revno := n }⟩ := by
+  rw [bound_eq_update g hwf isPull src tgt m stop s rn hreq hp]
+  simp [bound2, update_descends g hwf src m stop s rn hreq hp hm1 hmne hmao hs hmr n hn,
+    update_descends g hwf src tgt stop s rn hreq hp ht1 htne htao hs htr n hn]
+
+/-- **Master out of step with the target.**  The requested revision descends
+from the master's tip but has diverged from the target's tip: the master HAS
+MOVED to it when `DivergedBranches` is raised for the target; the target is
+unchanged.  (The statement speaks about the target tip only; C23 reports the
+moved master as a finding for checkouts.) -/
+theorem bound_master_moves_target_diverged (g : Graph) (hwf : wf g = true) (isPull : Bool) (src tgt m : Br)
+    (stop : Option Tip) (s : Tip) (rn : Option Nat) (hreq : requested src stop = some (s, rn))
+    (hp : tipPresent g s = true)
+    (hm1 : isAnc g m.tip s = true) (hmne : s ≠ m.tip) (hmao : m.appendOnly = false) (hmr : revnoOK g m = true)
+    (ht1 : isAnc g s tgt.tip = false) (ht2 : isAnc g tgt.tip s = false)
+    (hs : revnoOK g src = true) (n : Nat) (hn : revnoOf g s = some n) :
+    applyOp g isPull src tgt (some m) stop false =
+      ⟨some .diverged, tgt, some { m with tip := s, revno := n }⟩ := by
+  rw [bound_eq_update g hwf isPull src tgt m stop s rn hreq hp]
+  simp [bound2, update_descends g hwf src m stop s rn hreq hp hm1 hmne hmao hs hmr n hn,
+    update_diverged g hwf src tgt stop s rn hreq hp ht1 ht2]
+
+/-- **Master in step with the target** (same tip, revno and setting): whatever
+the operation does (any stop revision, overwrite or not), master and target end
+equal again — both moved to the same (tip, revno), or both untouched with the
+error raised for the master. -/
+theorem bound_in_step_stays (g : Graph) (isPull : Bool) (src tgt : Br) (stop : Option Tip) (ow : Bool) :
+    ((applyOp g isPull src tgt (some tgt) stop ow).err = none →
+      (applyOp g isPull src tgt (some tgt) stop ow).master = some (applyOp g isPull src tgt (some tgt) stop ow).tgt) ∧
+    ((applyOp g isPull src tgt (some tgt) stop ow).err ≠ none →
+      (applyOp g isPull src tgt (some tgt) stop ow).tgt = tgt ∧
+      (applyOp g isPull src tgt (some tgt) stop ow).master = some tgt) := by
+  cases isPull
+  · simp only [applyOp, pushOp, bound2, Bool.false_eq_true, if_false]
+    cases h : basicPush g src tgt stop ow <;> simp
+  · simp only [applyOp, pullOp, bound2, if_true]
+    cases h : updateRevisions g src tgt stop ow <;> simp
+
+-- non-vacuity: master at 1, target at 3, requested revision 2 (sibling of 3): the master moves, the target refuses
+example : applyOp exG true exSrc { tip := some 3, revno := 2 } (some { tip := some 1, revno := 1 }) (some (some 2)) false
+    = ⟨some .diverged, { tip := some 3, revno := 2 }, some { tip := some 2, revno := 2 }⟩ := rfl
+example : applyOp exG false exSrc { tip := some 1, revno := 1 } (some { tip := some 3, revno := 2 }) (some (some 2)) false
+    = ⟨some .diverged, { tip := some 1, revno := 1 }, some { tip := some 3, revno := 2 }⟩ := rfl
+example : applyOp exG true exSrc exTgt (some { tip := some 1, revno := 1 }) none false
+    = ⟨none, { tip := some 4, revno := 3 }, some { tip := some 4, revno := 3 }⟩ := rfl
+
+/-! ### `pull(local=True)` and pulling from the master itself -/
+
+/-- `local=True` and `source is the master` never touch the master; `local=True`
+on an unbound target is refused with nothing changed; in every case a pull
+without overwrite leaves the old target tip an ancestor of the new one, and a
+failing pull leaves the target as it was. -/
+theorem pull_local_or_from_master (g : Graph) (hwf : wf g = true) (src tgt : Br) (m : Option Br)
+    (stop : Option Tip) (ow lo sm : Bool) :
+    ((lo = true ∨ sm = true) → (pullOpX g src tgt m stop ow lo sm).master = m) ∧
+    (lo = true → m = none → pullOpX g src tgt m stop ow lo sm = ⟨some .localRequiresBound, tgt, none⟩) ∧
+    (ow = false → isAnc g tgt.tip (pullOpX g src tgt m stop ow lo sm).tgt.tip = true) ∧
+    ((pullOpX g src tgt m stop ow lo sm).err ≠ none → (pullOpX g src tgt m stop ow lo sm).tgt = tgt) := by
+  refine ⟨?_, ?_, ?_, ?_⟩
+  · intro h
+    unfold pullOpX
+    cases m with
+    | none =>
+      cases lo
+      · have : sm = true := by simpa using h
+        simp [this, pullOp, bound2]
+        cases updateRevisions g src tgt stop ow <;> rfl
+      · simp
+    | some mb =>
+      have : (lo || sm) = true := by rcases h with h | h <;> simp [h]
+      simp only [Option.isNone_some, Bool.and_false, Bool.false_eq_true, if_false, this, Option.isSome_some,
+        Bool.and_self, if_true]
+      cases updateRevisions g src tgt stop ow <;> rfl
+  · intro h1 h2
+    subst h1 h2
+    simp [pullOpX]
+  · intro how
+    subst how
+    unfold pullOpX
+    split
+    · exact isAnc_refl' g _
+    · split
+      · cases h : updateRevisions g src tgt stop false with
+        | ok t => exact no_overwrite_never_drops g hwf src tgt stop t h
+        | error e => exact isAnc_refl' g _
+      · exact (push_pull_never_drop g hwf src tgt m stop).1.1
+  · intro h
+    unfold pullOpX at h ⊢
+    split
+    · rfl
+    · split
+      · cases hu : updateRevisions g src tgt stop ow with
+        | ok t => rename_i h1 h2; simp [h1, h2, hu] at h
+        | error e => rfl
+      · rename_i h1 h2
+        simp only [h1, h2] at h
+        exact (update_error_unchanged g src tgt m stop ow).1 h
+
+example : pullOpX exG exSrc exTgt (some { tip := some 1, revno := 1 }) none false true false
+    = ⟨none, { tip := some 4, revno := 3 }, some { tip := some 1, revno := 1 }⟩ := rfl
+example : pullOpX exG exSrc exTgt none none false true false = ⟨some .localRequiresBound, exTgt, none⟩ := rfl
 
 /-! ### git -/
 
